@@ -23,6 +23,7 @@ import (
 	"os"
 	"path/filepath"
 	"sort"
+	"strings"
 	"sync"
 	"sync/atomic"
 	"testing"
@@ -576,7 +577,11 @@ func TestVerifC19Trace(t *testing.T) {
 	if b, err := json.Marshal(scs); err == nil { // lets the Python side name the parameters of any scenario
 		os.WriteFile(filepath.Join(kit.OutDir(), "scenarios.json"), b, 0o644)
 	}
+	only := kit.Env("VERIF_C19_ONLY", "") // development aid: comma-separated scenario ids
 	for _, sc := range scs {
+		if only != "" && !strings.Contains(","+only+",", fmt.Sprintf(",%d,", sc.ID)) {
+			continue
+		}
 		res.SetRunning(sc, false)
 		t0 := time.Now()
 		out, tx, rx, fs := c19Evaluate(t, sc)
@@ -601,8 +606,10 @@ func TestVerifC19Trace(t *testing.T) {
 		}
 		res.Stat("virtual_s", int64(sc.DurS))
 		res.Sample(map[string]any{"scenario": sc, "tx": tx, "rx": rx, "app_bytes": out.AppBytes}, 6)
-		if out.AppBytes["limited"] == 0 || (sc.Tx.Pattern != "idle" && out.AppBytes["peer"] == 0) {
-			res.Note("scenario %d moved no application data (%v)", sc.ID, out.AppBytes)
+		// at 2 kB/s a 16 kB frame takes 8 s and the first frame of a stream may queue behind others: an application
+		// that has read nothing yet is slow, not dead; a scenario in which no frame reached the limited side is
+		if rx.Events == 0 || (sc.Tx.Pattern != "idle" && tx.Events == 0) {
+			res.Note("scenario %d moved no data (rx %d frames, tx %d chunks, app %v)", sc.ID, rx.Events, tx.Events, out.AppBytes)
 			res.Stat("dead_scenarios", 1)
 		}
 		for _, f := range fs {
@@ -619,6 +626,11 @@ func TestVerifC19Trace(t *testing.T) {
 		c19Emit(tws[k], sc, out.Evs, tx, rx)
 	}
 	res.Stat("scenarios", int64(len(scs)))
+	if in := kit.Env("VERIF_IN", ""); in != "" { // same process: the model's Take arithmetic against the library
+		if err := c19BucketReplay(res, in); err != nil {
+			t.Fatal(err)
+		}
+	}
 	var n int64
 	for _, tw := range tws {
 		n += tw.Events()
@@ -708,11 +720,10 @@ func c19ReplayBucket(b *c19Beh, unit, jitter time.Duration) string {
 	return ""
 }
 
-func TestVerifC19Bucket(t *testing.T) {
-	res := kit.NewResult()
-	defer func() { res.Save(true) }()
+// c19BucketReplay replays every behaviour of the file in 4 concretisations of the model's clock unit.
+func c19BucketReplay(res *kit.Result, path string) error {
 	idx := 0
-	err := kit.ReadLines(kit.Env("VERIF_IN", ""), func(line []byte) error {
+	err := kit.ReadLines(path, func(line []byte) error {
 		var b c19Beh
 		if err := json.Unmarshal(line, &b); err != nil {
 			return err
@@ -731,12 +742,18 @@ func TestVerifC19Bucket(t *testing.T) {
 			}
 		}
 		if idx%97 == 1 {
-			res.Sample(map[string]any{"bucket_behaviour": json.RawMessage(append([]byte{}, line...))}, 2)
+			res.Sample(map[string]any{"bucket_behaviour": json.RawMessage(append([]byte{}, line...))}, 8)
 		}
 		return nil
 	})
-	if err != nil {
+	res.Stat("bucket_behaviours", int64(idx))
+	return err
+}
+
+func TestVerifC19Bucket(t *testing.T) {
+	res := kit.NewResult()
+	defer func() { res.Save(true) }()
+	if err := c19BucketReplay(res, kit.Env("VERIF_IN", "")); err != nil {
 		t.Fatal(err)
 	}
-	res.Stat("behaviours", int64(idx))
 }
